@@ -3,6 +3,12 @@ use crate::ctx::Ctx;
 use crate::gen::Vt;
 use crate::rng::all_perms;
 use crate::sddhist::*;
+use crate::tt::Tt;
+use crate::walk::SddWalker;
+use rsdd::builder::sdd::{CompressionSddBuilder, SddBuilder};
+use rsdd::builder::BottomUpBuilder;
+use rsdd::repr::{DDNNFPtr, SddPtr, VarLabel};
+use serde_json::json;
 
 pub fn run(ctx: &mut Ctx) {
     let checks = SddChecks {
@@ -39,6 +45,17 @@ pub fn run(ctx: &mut Ctx) {
             run_sdd_history(ctx, &cfg, &ops, &c2);
         });
     }
+    // exhaustive: all 256 functions of 3 variables under every vtree on 3 leaves (2 shapes x
+    // 6 labellings), compression on: and/or over all ordered pairs, all cofactors, exists,
+    // negation; xor / iff / compose / ite on every 8th second operand
+    let mut vt3: Vec<Vt> = Vec::new();
+    for p in all_perms(3) {
+        vt3.extend(Vt::all_shapes(&p));
+    }
+    for case in ctx.cases("exh3", (vt3.len() * 8) as u64, false) {
+        let vt = vt3[(case / 8) as usize].clone();
+        ctx.run_case("exh3", case, move |ctx, _rng| exhaustive3(ctx, &vt, (case % 8) as usize));
+    }
     for case in ctx.cases("rand", 1500, true) {
         let c2 = checks.clone();
         ctx.run_case("rand", case, move |ctx, rng| {
@@ -71,4 +88,74 @@ pub fn run(ctx: &mut Ctx) {
             run_sdd_history(ctx, &cfg, &ops, &c2);
         });
     }
+}
+
+fn exhaustive3(ctx: &mut Ctx, vt: &Vt, block: usize) {
+    let n = 3;
+    crate::caps::set_unique(Some(16));
+    let builder = CompressionSddBuilder::new(vt.to_rsdd());
+    crate::caps::reset();
+    let b = &builder;
+    let mut w = SddWalker::new(n);
+    let mut fs: Vec<(SddPtr, Tt)> = Vec::with_capacity(256);
+    for code in 0..256u64 {
+        let t = Tt { n, w: vec![code] };
+        let p = sdd_from_tt(b, &t, 0);
+        if w.tt(p) != t {
+            ctx.violation("sdd.exh3.build", "construction by Shannon expansion gives a wrong function",
+                json!({"function": t.hex(), "vtree": vt.to_json()}));
+        }
+        ctx.case_eval(None);
+        fs.push((p, t));
+    }
+    let mut check = |ctx: &mut Ctx, name: &str, got: SddPtr, exp: Tt, desc: serde_json::Value| {
+        let g = w.tt(got);
+        let key = if exp.is_trivial() { None } else {
+            Some(crate::rng::mix(crate::rng::hash_str(name) ^ crate::rng::hash_str(&desc.to_string()) ^ crate::rng::hash_str(&vt.to_json().to_string())))
+        };
+        ctx.case_eval(key);
+        if g != exp {
+            ctx.violation(&format!("sdd.exh3.{}", name), &format!("{} wrong function", name),
+                json!({"args": desc, "observed": g.hex(), "expected": exp.hex(), "vtree": vt.to_json()}));
+        }
+    };
+    for fi in (block * 32)..(block * 32 + 32) {
+        let (f, ft) = fs[fi].clone();
+        check(ctx, "negate", b.negate(f), ft.not(), json!([fi]));
+        for v in 0..n {
+            for val in [false, true] {
+                check(ctx, "condition", b.condition(f, VarLabel::new(v as u64), val), ft.cofactor(v, val), json!([fi, v, val]));
+            }
+            check(ctx, "exists", b.exists(f, VarLabel::new(v as u64)), ft.exists(v), json!([fi, v]));
+        }
+        for gi in 0..256 {
+            let (g, gt) = fs[gi].clone();
+            check(ctx, "and", b.and(f, g), ft.and(&gt), json!([fi, gi]));
+            check(ctx, "or", b.or(f, g), ft.or(&gt), json!([fi, gi]));
+            if gi % 8 == fi % 8 {
+                check(ctx, "xor", b.xor(f, g), ft.xor(&gt), json!([fi, gi]));
+                check(ctx, "iff", b.iff(f, g), ft.iff(&gt), json!([fi, gi]));
+                let v = gi % n;
+                check(ctx, "compose", b.compose(f, VarLabel::new(v as u64), g), ft.compose_doc(v, &gt), json!([fi, v, gi]));
+                let hi = (gi * 7 + fi) % 256;
+                let (h, ht) = fs[hi].clone();
+                check(ctx, "ite", b.ite(f, g, h), ft.ite(&gt, &ht), json!([fi, gi, hi]));
+            }
+        }
+    }
+    let mut fresh = SddWalker::new(n);
+    for (p, t) in fs.iter() {
+        if fresh.tt(*p) != *t {
+            ctx.violation("sdd.drift", "earlier result changed function", json!({"function": t.hex(), "vtree": vt.to_json()}));
+            break;
+        }
+    }
+    let (g, _, _) = rsdd::verif::take_counters();
+    ctx.count("unique_table_grows", g);
+    ctx.count("exh3_blocks", 1);
+    let _ = f_is_neg(fs[0].0);
+}
+
+fn f_is_neg(p: SddPtr) -> bool {
+    p.is_neg()
 }
